@@ -1,44 +1,121 @@
 import Log4rsModel.Literals.Model
 /-
-Executable specification of C20, read off the English statement:
-  '<number><unit>' (case-insensitive unit, optional whitespace between and after) denotes
-  number × unit; a bare number denotes bytes / seconds; everything else, and every value that
-  does not fit the target type, is rejected.
-`none` = must be rejected, `some v` = must be accepted with exactly this value.
+Specification of C20 for the two trigger literals, read off the English statement. It mentions
+neither the model's parsing functions nor its unit tables.
+
+  "Size limits and time intervals written as '<number><unit>' parse, case-insensitively and with or
+   without whitespace between number and unit, to exactly number x unit (powers of 1024 for
+   b/kb/mb/gb/tb and their -ib forms; the named unit, singular or plural, for intervals), and bare
+   numbers mean bytes or seconds. Negative numbers, unknown units, fractional numbers and values
+   that would overflow are rejected with an error instead of wrapping or panicking."
+
+* `SizeLit s v` / `IntervalLit s t n` : the RELATIONS "the text `s` is a literal denoting `v` bytes /
+  `n` units `t`" (the specification proper; `C20_size_iff`, `C20_interval_iff` prove the model of the
+  code equivalent to them, with the range condition).
+* `specSize`, `specInterval` : executable deciders, used by the driver for raw strings (proved
+  equivalent to the relations in `Lemmas.lean`); for cases that carry the generator's intent the
+  driver does not parse at all (`Driver/C20.lean`).
+
+Reading decisions (also in props.d/C20.json): a number is a non-empty string of ASCII digits read in
+base ten (leading zeros allowed; `digitsVal`, tied to decimal numerals by `C20_digitsVal_decimal`);
+"white space" is the Unicode White_Space property (Rust's `char::is_whitespace`); white space is
+allowed between number and unit and after the unit, not before the number, and not after a bare
+number (this is what the code does; the statement does not say); the value of an interval is the pair
+(count, named unit) — what a month or a year is in seconds is the schedule's business (C16).
 -/
 namespace Log4rs.Literals
 open Log4rs.Str
 
-/-- mathematical (unbounded) reading of a literal: leading digit string, then a unit word -/
-def denote {α} (table : List (List Char × α)) (s : List Char) : Option (Nat × Option α) :=
-  let ds := s.takeWhile isAsciiDigit
-  let rest := s.dropWhile isAsciiDigit
-  if ds.isEmpty then none
-  else if rest.isEmpty then some (digitsVal ds, none)
-  else match lookupUnit table (trim rest) with
-    | none => none
+def Digits (ds : List Char) : Prop := ds ≠ [] ∧ ∀ c ∈ ds, isAsciiDigit c = true
+def AllWs (ws : List Char) : Prop := ∀ c ∈ ws, isWhitespace c = true
+
+/-- k, m, g, t = 1024^1 … 1024^4 -/
+def prefixExp (p : Char) : Option Nat :=
+  if p = 'k' then some 1 else if p = 'm' then some 2 else if p = 'g' then some 3
+  else if p = 't' then some 4 else none
+
+/-- the power of 1024 named by a (lower-case) size unit word: `b`; `kb mb gb tb`; `kib mib gib tib` -/
+def unitExp (w : List Char) : Option Nat :=
+  match w with
+  | [b] => if b = 'b' then some 0 else none
+  | [p, b] => if b = 'b' then prefixExp p else none
+  | [p, i, b] => if i = 'i' ∧ b = 'b' then prefixExp p else none
+  | _ => none
+
+inductive SizeLit : List Char → Nat → Prop
+  | bare (ds : List Char) : Digits ds → SizeLit ds (digitsVal ds)
+  | unit (ds ws u ws' : List Char) (k : Nat) : Digits ds → AllWs ws → AllWs ws' →
+      unitExp (u.map toAsciiLower) = some k →
+      SizeLit (ds ++ (ws ++ (u ++ ws'))) (digitsVal ds * 1024 ^ k)
+
+/-- the English name of an interval unit -/
+def TUnit.word : TUnit → List Char
+  | .second => ['s','e','c','o','n','d'] | .minute => ['m','i','n','u','t','e']
+  | .hour => ['h','o','u','r'] | .day => ['d','a','y'] | .week => ['w','e','e','k']
+  | .month => ['m','o','n','t','h'] | .year => ['y','e','a','r']
+
+def TUnit.all : List TUnit := [.second, .minute, .hour, .day, .week, .month, .year]
+
+/-- "the named unit, singular or plural" (lower-case word) -/
+def unitOf (w : List Char) : Option TUnit :=
+  TUnit.all.find? (fun t => w = t.word ∨ w = t.word ++ ['s'])
+
+inductive IntervalLit : List Char → TUnit → Nat → Prop
+  | bare (ds : List Char) : Digits ds → IntervalLit ds .second (digitsVal ds)
+  | unit (ds ws u ws' : List Char) (t : TUnit) : Digits ds → AllWs ws → AllWs ws' →
+      unitOf (u.map toAsciiLower) = some t →
+      IntervalLit (ds ++ (ws ++ (u ++ ws'))) t (digitsVal ds)
+
+/-! ### executable deciders -/
+
+def fit (max n : Nat) : Option Nat := if n ≤ max then some n else none
+
+/-- the leading ASCII digits and the remainder -/
+def leadDigits : List Char → List Char × List Char
+  | [] => ([], [])
+  | c :: cs =>
+    if isAsciiDigit c then ((leadDigits cs).1.cons c, (leadDigits cs).2) else ([], c :: cs)
+
+/-- unbounded reading of a literal text: number and, if present, the unit looked up by `f` on the
+lower-cased, white-space-stripped remainder -/
+def readLit {α} (f : List Char → Option α) (s : List Char) : Option (Nat × Option α) :=
+  match leadDigits s with
+  | ([], _) => none
+  | (ds, []) => some (digitsVal ds, none)
+  | (ds, rest) =>
+    match f ((trim rest).map toAsciiLower) with
     | some a => some (digitsVal ds, some a)
+    | none => none
 
-def specSize : Scalar → Option Nat
+def specSize : Visit → Option Nat
+  | .u64 v _ => some v
+  | .i64 v _ => if 0 ≤ v then some v.toNat else none
+  | .str s =>
+    match readLit unitExp s with
+    | none => none
+    | some (n, none) => fit U64_MAX n
+    | some (n, some k) => fit U64_MAX (n * 1024 ^ k)
+  | .other => none
+
+def specInterval : Visit → Option (TUnit × Int)
+  | .u64 v _ => (fit I64_MAX v).map (fun n => (.second, (n : Int)))
+  | .i64 v _ => if 0 ≤ v then some (.second, v) else none
+  | .str s =>
+    match readLit unitOf s with
+    | none => none
+    | some (n, none) => (fit I64_MAX n).map (fun n => (.second, (n : Int)))
+    | some (n, some t) => (fit I64_MAX n).map (fun n => (t, (n : Int)))
+  | .other => none
+
+/-- the statement on a document scalar: an integer is a bare number -/
+def specSizeDoc : Scalar → Option Nat
   | .int n => if 0 ≤ n ∧ n.toNat ≤ U64_MAX then some n.toNat else none
-  | .str s =>
-    match denote sizeUnitTable s with
-    | none => none
-    | some (n, none) => if n ≤ U64_MAX then some n else none
-    | some (n, some mult) => if n * mult ≤ U64_MAX then some (n * mult) else none
+  | .str s => specSize (.str s)
   | .other => none
 
-def specInterval : Scalar → Option (TUnit × Int)
+def specIntervalDoc : Scalar → Option (TUnit × Int)
   | .int n => if 0 ≤ n ∧ n.toNat ≤ I64_MAX then some (.second, n) else none
-  | .str s =>
-    match denote timeUnitTable s with
-    | none => none
-    | some (n, none) => if n ≤ I64_MAX then some (.second, (n : Int)) else none
-    | some (n, some u) => if n ≤ I64_MAX then some (u, (n : Int)) else none
+  | .str s => specInterval (.str s)
   | .other => none
-
-def exceptToOption {ε α} : Except ε α → Option α
-  | .ok a => some a
-  | .error _ => none
 
 end Log4rs.Literals
